@@ -17,7 +17,11 @@
 
 package topicmapper
 
-import "github.com/megaease/easegress/pkg/filters"
+import (
+	"fmt"
+
+	"github.com/megaease/easegress/pkg/filters"
+)
 
 type (
 	// Spec is spec of Kafka
@@ -56,3 +60,21 @@ type (
 		Exprs []string `yaml:"exprs" jsonschema:"required"`
 	}
 )
+
+// Validate validates the TopicMapper spec.
+func (s *Spec) Validate() error {
+	if s.MatchIndex < 0 {
+		return fmt.Errorf("matchIndex must not be negative")
+	}
+	for _, p := range s.Policies {
+		if p.TopicIndex < 0 {
+			return fmt.Errorf("policy %s: topicIndex must not be negative", p.Name)
+		}
+		for k := range p.Headers {
+			if k < 0 {
+				return fmt.Errorf("policy %s: header index must not be negative", p.Name)
+			}
+		}
+	}
+	return nil
+}
